@@ -234,7 +234,7 @@ func runBInner(s *BScript) (nontrivial bool, f *vt.Finding) {
 	for bi, b := range batches {
 		out = append(out, b.items...)
 		if s.Max > 0 && b.size > s.Max && b.units > 1 {
-			if f := vt.Failf("size-bound/"+s.Sizer+"/"+s.Signal, "batch %d has size %d %s > max %d and holds %d units", bi, b.size, s.Sizer, s.Max, b.units); !cB.Soft(f, s) {
+			if f := vt.Failf("size-bound/"+s.Sizer+"/"+s.Signal+overshootClass(s.Sizer, b.size-s.Max), "batch %d has size %d %s > max %d and holds %d units", bi, b.size, s.Sizer, s.Max, b.units); !cB.Soft(f, s) {
 				return true, f
 			}
 		}
